@@ -69,7 +69,7 @@ def judge_native(rec, op, key, cases, maps, structural=True):
             continue
         lv, near = W.levels(spec, ih)
         if lv is None:
-            (rec.ok(op, key) if np.all(lab == 0) else rec.bad(op, key, {"spec": spec, "labels": lab}, "constant-spectrum-labelled"))
+            (rec.ok(op, key) if (np.all(lab == 0) or np.all(lab == 1)) else rec.bad(op, key, {"spec": spec, "labels": lab}, "constant-spectrum-labelled"))
             continue
         if structural and not near:
             bad = W.check_map(lv, lab)
